@@ -6,6 +6,7 @@ import (
 	"math/rand"
 	"strconv"
 	"strings"
+	"time"
 	"unicode/utf8"
 
 	"verif/harness/core"
@@ -31,6 +32,132 @@ func vh(kv ...sx.Sexp) sx.Sexp {
 
 var vu = sx.T("u")
 var vd = sx.T("d")
+
+// ---- the kinds of the extended model (op fmtx) ------------------------------------------------------------------------------
+
+func vv(s string) sx.Sexp       { return sx.T("v", sx.Str(s)) }
+func vw(s, norm string) sx.Sexp { return sx.T("w", sx.Str(s), sx.Str(norm)) }
+func vy(s string) sx.Sexp       { return sx.T("y", sx.Str(s)) }
+func vn(ns int64) sx.Sexp       { return sx.T("n", sx.Int(ns)) }
+func vz(v sx.Sexp) sx.Sexp      { return sx.T("z", v) }
+
+// a Timestamp with the text Go's time package gives it under the default layout (a parameter of the model, like the float digits)
+func vm(sec, nsec int64) sx.Sexp {
+	return sx.T("m", sx.Int(sec), sx.Int(nsec), sx.Str(time.Unix(sec, nsec).UTC().Format(timestampLayout)))
+}
+
+// a Type: the source the harness parses, and what the model formats: Name() and Parameters()
+func vt(src, name string, params ...sx.Sexp) sx.Sexp {
+	return sx.T("t", append([]sx.Sexp{sx.Str(src), sx.Str(name)}, params...)...)
+}
+
+// an instance of an object type of the catalogue with its init hash
+func vo(name string, kv ...sx.Sexp) sx.Sexp {
+	xs := []sx.Sexp{sx.Str(name)}
+	for i := 0; i+1 < len(kv); i += 2 {
+		xs = append(xs, sx.L(kv[i], kv[i+1]))
+	}
+	return sx.T("o", xs...)
+}
+
+var semverPool = []string{"1.0.0", "0.0.0", "1.2.3-rc1+b5", "10.20.30", "1.0.0-alpha.1", "2.0.0+build.7"}
+
+// (String(), NormalizedString()) of github.com/lyraproj/semver ranges
+var rangePool = [][2]string{{">=1.0.0 <2.0.0", ">=1.0.0 <2.0.0"}, {"1.x", ">=1.0.0 <2.0.0"}, {"~1.2.3", ">=1.2.3 <1.3.0"}, {"^1.2", ">=1.2.0 <2.0.0"},
+	{">1.0.0", ">1.0.0"}, {"=1.2.3", "1.2.3"}, {"1.2.3", "1.2.3"}, {"<=1.2.3 || >2", "<=1.2.3 || >=3.0.0"}, {"1.2.x", ">=1.2.0 <1.3.0"}, {"^0.2.3", ">=0.2.3 <0.3.0"}}
+
+var uriPool = []string{"http://example.com", "http://example.com:8080/a%20b?x=1#f", "file:///tmp/x", "mailto:a@b.c", "https://u:p@h.org/p/q?k=v&l=w", "/rel/path", "urn:x:y"}
+
+var spanPool = []int64{0, 1, 1500000000, 90061500000000, -90061500000000, 999999999, 1000000000, 86400000000000, 123456789012345678, math.MaxInt64, math.MinInt64 + 1, -1, 60000000000, 3600000000000}
+
+var stampPool = [][2]int64{{0, 0}, {1500000000, 123456789}, {1500000000, 0}, {-1, 999999999}, {253402300799, 999999999}, {951782400, 500000000}, {1, 1000}}
+
+// types whose ToString is TypeToString, with their (Name(), Parameters()); object types, aliases and type sets have a ToString
+// of their own and are not in the pool
+func typePool() []sx.Sexp {
+	tInt, tStr := vt("Integer", "Integer"), vt("String", "String")
+	return []sx.Sexp{
+		tInt, vt("Integer[0, 9]", "Integer", vi(0), vi(9)), vt("Integer[1]", "Integer", vi(1)), vt("Integer[default, 5]", "Integer", vd, vi(5)),
+		vt("Float", "Float"), vt("Float[1.00000, 2.50000]", "Float", vf(1), vf(2.5)), tStr, vt("String[1, 5]", "String", vi(1), vi(5)),
+		vt("Enum['a', 'b']", "Enum", vs("a"), vs("b")), vt("Enum", "Enum"), vt("Pattern[/a.b/]", "Pattern", vr("a.b")),
+		vt("Array[String]", "Array", tStr), vt("Array[Integer, 1, 3]", "Array", tInt, vi(1), vi(3)), vt("Array", "Array"),
+		vt("Hash[String, Integer]", "Hash", tStr, tInt), vt("Hash[String, Integer, 1, 3]", "Hash", tStr, tInt, vi(1), vi(3)),
+		vt("Tuple[Integer, String]", "Tuple", tInt, tStr), vt("Tuple[Integer, String, 1, 5]", "Tuple", tInt, tStr, vi(1), vi(5)),
+		vt("Struct[{'a' => Integer}]", "Struct", vh(vs("a"), tInt)),
+		vt("Struct[{'a' => Integer, Optional['b'] => String}]", "Struct", vh(vs("a"), tInt, vt("Optional['b']", "Optional", vs("b")), tStr)),
+		vt("Variant[Integer, String]", "Variant", tInt, tStr), vt("Optional[Integer]", "Optional", tInt), vt("NotUndef[String]", "NotUndef", tStr),
+		vt("Type[Integer[1]]", "Type", vt("Integer[1]", "Integer", vi(1))), vt("Type", "Type"), vt("Collection[1, 2]", "Collection", vi(1), vi(2)),
+		vt("Boolean", "Boolean"), vt("Boolean[true]", "Boolean", vb(true)), vt("Regexp[/x/]", "Regexp", vr("x")), vt("Undef", "Undef"),
+		vt("Default", "Default"), vt("Any", "Any"), vt("Scalar", "Scalar"), vt("Numeric", "Numeric"), vt("Binary", "Binary"),
+		vt("Timespan", "Timespan"), vt("Timestamp", "Timestamp"), vt("SemVer", "SemVer"), vt("SemVer['1.x']", "SemVer", vs("1.x")),
+		vt("SemVerRange", "SemVerRange"), vt("URI", "URI"), vt("Sensitive[String]", "Sensitive", tStr), vt("Iterable[Integer]", "Iterable", tInt),
+		vt("Callable[Integer]", "Callable", tInt), vt("Callable[[Integer, String], Undef]", "Callable", va(tInt, tStr), vt("Undef", "Undef")),
+		vt("Init[Integer]", "Init", tInt), vt("Timespan['0-00:00:01.0']", "Timespan", vs("0-00:00:01.0")),
+		vt("Array[Array[Integer[0, 9]]]", "Array", vt("Array[Integer[0, 9]]", "Array", vt("Integer[0, 9]", "Integer", vi(0), vi(9)))),
+		vt("Struct[{'a' => Struct[{'b' => Array[Integer]}]}]", "Struct",
+			vh(vs("a"), vt("Struct[{'b' => Array[Integer]}]", "Struct", vh(vs("b"), vt("Array[Integer]", "Array", tInt))))),
+		vt("Hash[String, Hash[String, Integer]]", "Hash", tStr, vt("Hash[String, Integer]", "Hash", tStr, tInt)),
+		vt("Optional['a']", "Optional", vs("a")), vt("Type[Type[Integer]]", "Type", vt("Type[Integer]", "Type", tInt)),
+		vt("TypeReference['Foo']", "TypeReference", vs("Foo")), vt("ScalarData", "ScalarData"), vt("Unit", "Unit"),
+	}
+}
+
+func newScalarPool() []sx.Sexp {
+	out := []sx.Sexp{vz(vs("secret")), vz(vi(1))}
+	for _, s := range semverPool {
+		out = append(out, vv(s))
+	}
+	for _, r := range rangePool {
+		out = append(out, vw(r[0], r[1]))
+	}
+	for _, u := range uriPool {
+		out = append(out, vy(u))
+	}
+	for _, n := range spanPool {
+		out = append(out, vn(n))
+	}
+	for _, m := range stampPool {
+		out = append(out, vm(m[0], m[1]))
+	}
+	return append(out, typePool()...)
+}
+
+func newContainerPool() []sx.Sexp {
+	tp := typePool()
+	return []sx.Sexp{
+		vo("Verif::Unit"), vo("Verif::One", vs("v"), vi(1)), vo("Verif::Pair", vs("a"), vi(1), vs("b"), vs("x")),
+		vo("Verif::Pair", vs("a"), va(vi(1), vi(2)), vs("b"), vh(vs("k"), vv("1.0.0"))), vo("Verif::One", vs("v"), vo("Verif::One", vs("v"), vu)),
+		vo("Verif::Pair", vs("a"), tp[1], vs("b"), vn(1500000000)),
+		va(vv("1.2.3-rc1+b5"), vw("1.x", ">=1.0.0 <2.0.0"), vy("http://example.com"), vn(90061500000000), vm(1500000000, 123456789), vz(vs("s")), tp[1]),
+		va(tp[18], tp[19], va(tp[11])), va(vo("Verif::One", vs("v"), vi(1)), vi(2), vo("Verif::Unit")), va(vi(1), vo("Verif::Pair", vs("a"), vi(1), vs("b"), va()), vs("x")),
+		vh(vs("ver"), vv("1.0.0"), vs("t"), tp[12]), vh(vv("1.0.0"), vi(1)), vh(vs("o"), vo("Verif::One", vs("v"), va(vi(1)))), vh(tp[0], tp[1]),
+		va(va(vn(0)), vh(vs("k"), vm(0, 0))), va(vz(va(vi(1))), vz(vu)),
+	}
+}
+
+func hasNewKind(e sx.Sexp) bool {
+	if !e.IsList {
+		return false
+	}
+	if isNewTag(e.Tag()) {
+		return true
+	}
+	for _, k := range e.List {
+		if k.IsList && hasNewKind(k) {
+			return true
+		}
+	}
+	return false
+}
+
+func hasNewKey(m []entry) bool {
+	for _, e := range m {
+		if isNewKey(e.key) || (e.n.hasCf && hasNewKey(e.n.cf)) {
+			return true
+		}
+	}
+	return false
+}
 
 var intPool = []int64{0, 1, -1, 5, -5, 9, 10, 42, 255, -255, 256, 65, 97, 0x1F600, 0xD800, 0x110000, 1<<32 + 65, -65,
 	math.MaxInt64, math.MinInt64, math.MinInt64 + 1, 1 << 31, -(1 << 31), 1000000, 123456789, 8, 7, 16, -16, 4095}
@@ -120,12 +247,25 @@ func scalarModelled(e sx.Sexp, d dir) bool {
 		return true
 	case "r":
 		return utf8.ValidString(e.Args()[0].MustStr())
+	case "n":
+		// format2 does not negate MinInt64: its segments are those of a negative number (outside the model of the default format)
+		return e.Args()[0].MustInt() != math.MinInt64
 	}
 	return true
 }
 
 func modelled(e sx.Sexp, m []entry, entryMode bool) bool {
 	tag := e.Tag()
+	if tag == "t" && !entryMode {
+		// the parameters are formatted as an Array under the same map
+		if len(m) == 1 && m[0].key == "self" {
+			m = []entry{{key: "type", n: m[0].n}}
+		}
+		if n := lookup(m, tag, nil); !n.d.ok || strings.IndexByte("sp", n.d.letter) < 0 || len(e.Args()) == 2 {
+			return true
+		}
+		return modelled(va(e.Args()[2:]...), m, false)
+	}
 	if !isContainerTag(tag) && !entryMode {
 		if len(m) == 1 && m[0].key == "self" {
 			return scalarModelled(e, m[0].n.d)
@@ -173,14 +313,14 @@ func modelled(e sx.Sexp, m []entry, entryMode bool) bool {
 		if an.hasCf {
 			acf = an.cf
 		}
-		for _, kv := range e.Args() {
+		for _, kv := range entriesOfValue(e) {
 			if !modelled(kv, acf, true) {
 				return false
 			}
 		}
 		return true
 	}
-	for _, kv := range e.Args() {
+	for _, kv := range entriesOfValue(e) {
 		if !child(kv.List[0]) || !child(kv.List[1]) {
 			return false
 		}
@@ -302,9 +442,15 @@ func emitFmt(g *core.G, ctx sx.Sexp, v sx.Sexp) {
 	case "mmap":
 		in = mapValid(ctx) && mergedModelled(v, entriesOfNoType(ctx.Args()))
 	}
-	line := "fmt " + ctx.String() + " " + v.String()
+	op := "fmt "
+	if hasNewKind(v) || (mode == "map" && hasNewKey(entriesOfNoType(ctx.Args()))) {
+		// the extended model (every value kind; the per-type maps of the String constructor are not in it yet)
+		op = "fmtx "
+		in = in && mode != "mmap"
+	}
+	line := op + ctx.String() + " " + v.String()
 	if !in {
-		if emitWithOracle(g, ctx, v) {
+		if op == "fmt " && emitWithOracle(g, ctx, v) {
 			return
 		}
 		line = "@" + line
@@ -626,6 +772,10 @@ func gen(g *core.G) {
 		}
 	}
 
+	// (1x) the kinds of the extended model: every letter under the same five shapes on one value of each kind (quick) / on the
+	//      whole pool (thorough), then random directives on the pool and on containers that hold them
+	genX(g)
+
 	// (2) random (value, directive) samples: mostly documented letters, flags in any order, delimiters, odd widths
 	n := 20000
 	if g.Thorough() {
@@ -793,5 +943,219 @@ func gen(g *core.G) {
 			d[r.Intn(len(d))] = " 0.9z%"[r.Intn(6)]
 		}
 		emitFmt(g, ctx1("kind", string(d)), scalars[r.Intn(len(scalars))])
+	}
+}
+
+// ---- the extended model: SemVer, SemVerRange, URI, Timespan, Timestamp, Sensitive, Type values, object instances ----------------
+
+func randScalarX(r *rand.Rand, pool []sx.Sexp) sx.Sexp {
+	if r.Intn(3) == 0 {
+		return randScalar(r)
+	}
+	return pool[r.Intn(len(pool))]
+}
+
+func randValueX(r *rand.Rand, pool []sx.Sexp, depth int) sx.Sexp {
+	if depth <= 0 || r.Intn(3) == 0 {
+		return randScalarX(r, pool)
+	}
+	n := r.Intn(4)
+	switch r.Intn(5) {
+	case 0, 1:
+		xs := []sx.Sexp{}
+		for i := 0; i < n; i++ {
+			xs = append(xs, randValueX(r, pool, depth-1))
+		}
+		return va(xs...)
+	case 2:
+		switch r.Intn(3) {
+		case 0:
+			return vo("Verif::Unit")
+		case 1:
+			v := randValueX(r, pool, depth-1)
+			if v.Tag() == "u" {
+				v = vi(0) // an attribute equal to its default is not part of the init hash
+			}
+			return vo("Verif::One", vs("v"), v)
+		}
+		return vo("Verif::Pair", vs("a"), randValueX(r, pool, depth-1), vs("b"), randValueX(r, pool, depth-1))
+	}
+	xs := []sx.Sexp{}
+	seen := map[string]bool{}
+	for i := 0; i < n; i++ {
+		k := randScalarX(r, pool)
+		if r.Intn(6) == 0 {
+			k = randValueX(r, pool, depth-1)
+		}
+		// keys that are equal as hash keys are one entry: keep the keys apart by kind and text
+		ks := k.String()
+		if k.Tag() == "f" || k.Tag() == "z" || k.Tag() == "w" || k.Tag() == "m" || seen[ks] || strings.Contains(ks, "(o ") {
+			continue
+		}
+		seen[ks] = true
+		xs = append(xs, k, randValueX(r, pool, depth-1))
+	}
+	return vh(xs...)
+}
+
+var allMapKeys = append(append(append([]string{}, keyNames...), "object", "type"), newKeyNames...)
+
+func keyKind(r *rand.Rand, key string) string {
+	switch key {
+	case "arr", "coll":
+		return "a"
+	case "hash":
+		return "h"
+	case "object":
+		return "o"
+	case "str":
+		return "s"
+	case "bool":
+		return "b"
+	case "bin":
+		return "x"
+	case "float":
+		return "f"
+	case "dflt":
+		return "d"
+	case "undef":
+		return "u"
+	case "regexp":
+		return "r"
+	case "semver":
+		return "v"
+	case "semverrange":
+		return "w"
+	case "uri":
+		return "y"
+	case "timespan":
+		return "n"
+	case "timestamp":
+		return "m"
+	case "sensitive":
+		return "z"
+	case "type":
+		return "t"
+	case "any", "scalar":
+		return []string{"i", "s", "a", "h", "v", "t", "o"}[r.Intn(7)]
+	}
+	return "i"
+}
+
+func randNodeX(r *rand.Rand, key string, depth int) sx.Sexp {
+	kind := keyKind(r, key)
+	d := randDirective(r, kind)
+	if (kind == "a" || kind == "h" || kind == "o") && r.Intn(3) != 0 {
+		s := dirSpec{flags: "", width: -1, prec: -1, letter: documentedDoc[kind][r.Intn(len(documentedDoc[kind]))]}
+		if r.Intn(3) == 0 {
+			s.flags = delimFlags[r.Intn(6)]
+		}
+		if r.Intn(4) == 0 {
+			s.flags += " "
+		}
+		if r.Intn(6) == 0 {
+			s.flags += "#"
+		}
+		if r.Intn(5) == 0 {
+			s.width = 1 + r.Intn(20)
+		}
+		d = s.String()
+	}
+	sep, sep2, cf := sx.A("-"), sx.A("-"), sx.A("-")
+	if r.Intn(3) == 0 {
+		sep = sx.Str(seps[r.Intn(len(seps))])
+	}
+	if r.Intn(3) == 0 {
+		sep2 = sx.Str(seps[r.Intn(len(seps))])
+	}
+	if depth > 0 && r.Intn(2) == 0 {
+		cf = randMapEntriesX(r, depth-1)
+	}
+	return sx.L(sx.Str(d), sep, sep2, cf)
+}
+
+func randMapEntriesX(r *rand.Rand, depth int) sx.Sexp {
+	n := r.Intn(5)
+	xs := []sx.Sexp{}
+	seen := map[string]bool{}
+	for i := 0; i < n; i++ {
+		k := allMapKeys[r.Intn(len(allMapKeys))]
+		if seen[k] {
+			continue
+		}
+		seen[k] = true
+		xs = append(xs, sx.L(sx.A(k), randNodeX(r, k, depth)))
+	}
+	return sx.L(xs...)
+}
+
+func genX(g *core.G) {
+	r := g.Rng
+	pool := newScalarPool()
+	conts := newContainerPool()
+	tp := typePool()
+	small := []sx.Sexp{vv("1.2.3-rc1+b5"), vw("1.x", ">=1.0.0 <2.0.0"), vy("http://example.com:8080/a%20b?x=1#f"), vn(90061500000000), vm(1500000000, 123456789),
+		vz(vs("s")), tp[0], tp[1], tp[19], tp[42], vo("Verif::Unit"), vo("Verif::Pair", vs("a"), vi(1), vs("b"), va(vv("1.0.0"))), conts[6]}
+	if g.Thorough() {
+		small = append(append(small, pool...), conts...)
+	}
+	shapes := []dirSpec{{"", -1, -1, 0}, {"#", 8, -1, 0}, {"-", 30, 2, 0}, {"0+", 7, -1, 0}, {" <", 40, 0, 0}, {"#-(", 20, 12, 0}}
+	for _, v := range small {
+		for _, sh := range shapes {
+			for i := 0; i < len(letters); i++ {
+				sh.letter = letters[i]
+				emitFmt(g, ctx1("kind", sh.String()), v)
+			}
+		}
+	}
+	// every pool value under the documented letters of its kind, plain / alt / padded / cut
+	for _, v := range append(append([]sx.Sexp{}, pool...), conts...) {
+		docs := documentedDoc[v.Tag()]
+		if len(docs) > 8 {
+			docs = "spdx"
+		}
+		for i := 0; i < len(docs); i++ {
+			for _, fl := range []string{"", "#", "-45", "50", ".4", "#60.7", "[", "#|"} {
+				emitFmt(g, ctx1("kind", "%"+fl+string(docs[i])), v)
+			}
+		}
+	}
+	n := 4000 * g.Scale
+	for i := 0; i < n; i++ {
+		var v sx.Sexp
+		switch i % 4 {
+		case 0:
+			v = conts[r.Intn(len(conts))]
+		case 1:
+			v = randValueX(r, pool, 3)
+		default:
+			v = pool[r.Intn(len(pool))]
+		}
+		mode := "kind"
+		switch r.Intn(10) {
+		case 0, 1:
+			mode = "self"
+		case 2:
+			mode = "new"
+		}
+		d := randDirective(r, v.Tag())
+		if mode == "new" {
+			g.Emit("@fmtx " + ctx1("new", d).String() + " " + v.String())
+			continue
+		}
+		emitFmt(g, ctx1(mode, d), v)
+	}
+	// per-type format maps with the keys of every kind over containers that hold every kind
+	n = 2500 * g.Scale
+	for i := 0; i < n; i++ {
+		v := conts[r.Intn(len(conts))]
+		switch r.Intn(4) {
+		case 0:
+			v = randValueX(r, pool, 3)
+		case 1:
+			v = pool[r.Intn(len(pool))]
+		}
+		es := randMapEntriesX(r, 2)
+		emitFmt(g, sx.T("map", es.List...), v)
 	}
 }
